@@ -401,6 +401,35 @@ def check_bufwriter(ctx, rng, n):
                           dict(kind=801, case=c, model=m, code=k), nfi=True)
 
 
+def check_walk_race(ctx):
+    """one directed schedule of the parallel walker (library level, yield hook): an idle worker is held up between its
+    successful steal and its re-activation; every entry must still be visited exactly once, as by the serial walk"""
+    root = K.mktree("c08")
+    for n in ("a", "b", "c"):
+        with open(os.path.join(root, n + ".txt"), "w") as f:
+            f.write("hit %s\n" % n)
+    os.mkdir(os.path.join(root, "d"))
+    with open(os.path.join(root, "d", "e.txt"), "w") as f:
+        f.write("hit e\n")
+    line = vlist([vbytes(root.encode()), "250", "25", "3"])
+    out = vlib.code(804, [line])[0]
+    ctx.note_case("walk-race", True)
+    v = parse_val(out) if out.startswith("(") else None
+    if v is None:
+        ctx.violation("walk-race harness failed: " + out[:80], dict(kind=804, line=line), nfi=True)
+    else:
+        missing = [m.decode() if isinstance(m, bytes) else "" for m in v[0]]
+        extra = [m.decode() if isinstance(m, bytes) else "" for m in v[1]]
+        ctx.cov["walk_race_entries"] = v[3]
+        if missing or extra or v[2]:
+            ctx.violation("parallel walk (2 threads, idle worker delayed between steal and re-activation) does not visit "
+                          "the entries of the serial walk exactly once: missing %r, extra %r, %d duplicates" % (
+                              [os.path.relpath(m, root) for m in missing], [os.path.relpath(m, root) for m in extra], v[2]),
+                          dict(kind=804, tree=tree_listing(root), activate_sleep_ms=250, visit_sleep_ms=25, rounds=3,
+                               missing=missing, extra=extra, duplicates=v[2]))
+    K.rmtree(root)
+
+
 def check_crlf_known(ctx):
     """the listed known finding, replayed"""
     root = K.mktree("c08")
@@ -431,6 +460,7 @@ def run(ctx):
                        "non-empty blocks." % ", ".join(MODES))
     check_bufwriter(ctx, rng, ctx.count(150))
     check_crlf_known(ctx)
+    check_walk_race(ctx)
     check_cli(ctx, rng, max(4, ctx.count(8)), 9)
     K.report_drift(ctx, GEN_TARGETS, bool(ctx.violations))
     ctx.assumptions += [
